@@ -112,7 +112,7 @@ class Ctx:
                     r.discharged += 1
                     self.findings = [f for f in self.findings if not (f.rule == r.id and f.construct == inst["construct"])]
 
-    def guarded(self, r, structural_fn, witness, label, where=""):
+    def guarded(self, r, structural_fn, witness, label, where="", pred=None):
         """Run one structural rule function into rule r; an exception inside it (vanished anchor, unrecognised shape) or violations are
         overridden only if the witness evaluation (n, diffs, unsupported) was possible and agrees with the property on every row.
         Differences found by the witness are reported by the rule that owns the witness, not here."""
@@ -126,6 +126,12 @@ class Ctx:
         n, diffs, unsupported = witness
         bad = [i for i in tmp.instances if i["verdict"] == "VIOLATION"]
         decided = unsupported is None and not diffs
+        if pred is not None and decided:
+            # violations outside the witness's reach stand
+            strict = [i for i in bad if not pred(i["construct"])]
+            for i in strict:
+                r.violation(i["construct"], i["detail"], i["where"])
+            bad = [i for i in bad if pred(i["construct"])]
         if (bad or crashed is not None) and decided:
             for i in tmp.instances:
                 if i["verdict"] == "ok":
